@@ -25,7 +25,9 @@ Inductive stmt :=
 | SForLet (x : name) (b : list stmt)                (* for (let x = 0; x < 1; x++) { b } *)
 | SFunc (f : name) (ps : list name) (b : list stmt) (* function f(ps) { b } *)
 | SFuncExpr (self : option name) (ps : list name) (b : list stmt)   (* (function self(ps) { b }) *)
-| SArrow (ps : list name) (b : list stmt).          (* ((ps) => { b }) *)
+| SArrow (ps : list name) (b : list stmt)           (* ((ps) => { b }) *)
+| SEval                                             (* eval("") : a direct eval *)
+| SWith (b : list stmt).                            (* with ({}) { b }   (sloppy scripts only) *)
 
 Fixpoint dedup (l : list name) : list name :=
   match l with
@@ -42,13 +44,22 @@ Fixpoint var_names (s : stmt) : list name :=
   | SBlock b => flat_map var_names b
   | STry b _ c => flat_map var_names b ++ flat_map var_names c
   | SForLet _ b => flat_map var_names b
+  | SWith b => flat_map var_names b
   | _ => []
   end.
 (* names declared directly in a statement list *)
 Definition direct_var (s : stmt) : list name := match s with SVar x => [x] | _ => [] end.
 Definition direct_lex (s : stmt) : list name := match s with SLet x => [x] | _ => [] end.
 Definition direct_fun (s : stmt) : list name := match s with SFunc f _ _ => [f] | _ => [] end.
-Definition direct_refs (s : stmt) : list name := match s with SRef x => [x] | _ => [] end.
+Definition eval_name : name := [101; 118; 97; 108].
+Definition direct_refs (s : stmt) : list name := match s with SRef x => [x] | SEval => [eval_name] | _ => [] end.
+(* two facts about a scope travel in its [shared] list as pseudo-names that are no
+   identifiers (so they never resolve and never become members): the scope is the body
+   scope of a `with`; the scope's own statement list contains a direct eval *)
+Definition with_marker : name := [37; 119].
+Definition eval_marker : name := [37; 101].
+Definition eval_mark (b : list stmt) : list name :=
+  if existsb (fun s => match s with SEval => true | _ => false end) b then [eval_marker] else [].
 
 (* skeleton with the references made in each scope *)
 Inductive psk := PSk (fresh : list (name * ns)) (shared : list name) (refs : list name) (children : list psk).
@@ -58,7 +69,7 @@ Definition arguments_name : name := [97; 114; 103; 117; 109; 101; 110; 116; 115]
 
 Definition block_with (rec : stmt -> list psk) (b : list stmt) : psk :=
   PSk (dflt (dedup (flat_map direct_lex b ++ flat_map direct_fun b)))
-      (dedup (flat_map direct_var b))
+      (dedup (flat_map direct_var b) ++ eval_mark b)
       (flat_map direct_refs b)
       (flat_map rec b).
 
@@ -70,11 +81,12 @@ Definition fn_with (rec : stmt -> list psk) (self : option name) (ps : list name
   let copied := params ++ args in
   let own := minus (dedup (flat_map var_names b ++ flat_map direct_fun b ++ flat_map direct_lex b)) copied in
   PSk (dflt selfn ++ dflt params ++ map (fun x => (x, NsPinned)) args) [] []
-      [PSk (dflt own) copied (flat_map direct_refs b) (flat_map rec b)].
+      [PSk (dflt own) (copied ++ eval_mark b) (flat_map direct_refs b) (flat_map rec b)].
 
 Fixpoint scopes_of (s : stmt) : list psk :=
   match s with
-  | SVar _ | SLet _ | SRef _ => []
+  | SVar _ | SLet _ | SRef _ | SEval => []
+  | SWith b => [PSk [] [with_marker] [] [block_with scopes_of b]]
   | SBlock b => [block_with scopes_of b]
   | STry b p c =>
       block_with scopes_of b ::
@@ -95,7 +107,7 @@ Fixpoint scopes_of (s : stmt) : list psk :=
 (* the module scope of a program (a statement list) *)
 Definition module_psk (prog : list stmt) : psk :=
   PSk (dflt (dedup (flat_map var_names prog ++ flat_map direct_fun prog ++ flat_map direct_lex prog)))
-      [] (flat_map direct_refs prog) (flat_map scopes_of prog).
+      (eval_mark prog) (flat_map direct_refs prog) (flat_map scopes_of prog).
 
 (* references that no scope on the chain declares: unbound symbols of the module scope *)
 Fixpoint free_in (visible : list name) (k : psk) : list name :=
@@ -112,12 +124,60 @@ Fixpoint erase (k : psk) : sk :=
   | PSk fresh shared _ ch => Sk fresh shared (map erase ch)
   end.
 
-Definition skel_of_prog (prog : list stmt) : sk :=
+(* ---- pinning (MustNotBeRenamed) ----
+   popScope: every member of a scope that contains a direct eval - itself or in a
+   nested scope - is pinned.  findSymbol: a reference that passes the body scope of
+   a `with` before it finds its symbol pins that symbol.  A reference travels up
+   as (name, passed a with?, found?): a scope that lists the name as shared has
+   found it (the symbol is an outer scope's, but the walk ends here), a scope that
+   creates it consumes the record. *)
+Fixpoint has_eval (k : psk) : bool :=
+  match k with
+  | PSk _ shared _ ch =>
+      mem_name eval_marker shared ||
+      (fix go (cs : list psk) : bool := match cs with [] => false | c :: r => has_eval c || go r end) ch
+  end.
+
+Definition travel := (name * bool * bool)%type.
+
+Definition step_records (iswith : bool) (fresh shared : list name) (recs : list travel) : list name * list travel :=
+  fold_right (fun (t : travel) acc =>
+                let '(x, w, fz) := t in
+                let w' := if fz then w else w || iswith in
+                if mem_name x fresh then ((if w' then [x] else []) ++ fst acc, snd acc)
+                else if mem_name x shared then (fst acc, (x, w', true) :: snd acc)
+                else (fst acc, (x, w', fz) :: snd acc))
+             ([], []) recs.
+
+Fixpoint pin_psk (k : psk) : psk * list travel :=
+  match k with
+  | PSk fresh shared refs ch =>
+      let '(ch', below) :=
+        (fix go (cs : list psk) : list psk * list travel :=
+           match cs with
+           | [] => ([], [])
+           | c :: r => let '(c', t1) := pin_psk c in let '(r', t2) := go r in (c' :: r', t1 ++ t2)
+           end) ch in
+      let incoming := map (fun x => (x, false, false)) refs ++ below in
+      let '(pinned, out) := step_records (mem_name with_marker shared) (map fst fresh) shared incoming in
+      let all := has_eval k in
+      (* hoistSymbols (as fixed in bc60627): a `var` hoisted out of its scope past a `with`
+         body pins the symbol it ends up as, also when it is merged into an existing one:
+         every shared name starts travelling at the parent scope like a reference *)
+      let hoisted := map (fun x => (x, false, false))
+                         (filter (fun x => negb (name_eqb x with_marker || name_eqb x eval_marker)) shared) in
+      (PSk (map (fun p => (fst p, if all || mem_name (fst p) pinned then NsPinned else snd p)) fresh) shared refs ch',
+       out ++ hoisted)
+  end.
+
+(* the module skeleton with its free names, pinned, still carrying the references *)
+Definition closed_psk (prog : list stmt) : psk :=
   match module_psk prog with
   | PSk fresh shared refs ch =>
-      let free := dedup (free_in [] (PSk fresh shared refs ch)) in
-      Sk (fresh ++ map (fun x => (x, NsPinned)) free) shared (map erase ch)
+      fst (pin_psk (PSk (fresh ++ map (fun x => (x, NsPinned)) (dedup (free_in [] (PSk fresh shared refs ch)))) shared refs ch))
   end.
+
+Definition skel_of_prog (prog : list stmt) : sk := erase (closed_psk prog).
 
 (* the forest and symbol table js_parser builds, up to symbol numbering *)
 Definition parse_forest (prog : list stmt) : scope * symtab := build_sk (skel_of_prog prog).
@@ -145,10 +205,4 @@ Fixpoint refs_of (env : env_t) (k : psk) (n : nat) : list (name * env_t) :=
          end) ch (n + length fresh)%nat
   end.
 
-(* the module skeleton with its free names, still carrying the references *)
-Definition closed_psk (prog : list stmt) : psk :=
-  match module_psk prog with
-  | PSk fresh shared refs ch =>
-      PSk (fresh ++ map (fun x => (x, NsPinned)) (dedup (free_in [] (PSk fresh shared refs ch)))) shared refs ch
-  end.
 Definition parser_refs (prog : list stmt) : list (name * env_t) := refs_of [] (closed_psk prog) 0.
